@@ -54,6 +54,16 @@ INVS = ["LeavesFaithful", "PathsFaithful", "CtxDepth", "CtxEmptyAtEnd", "TreeCon
 EXT = ["strikethrough", "dollarmath", "deflist"]
 
 
+MARKER_DOCS = [
+    ("# Install\n\nMKax see[^install] and[^n2]\n\n[^install]: Needs **MKbx** and `MKcx`\n\n[^n2]: MKdx\n", {}),
+    ("(tgt)=\n# Tgt\n\nMKax[^tgt]\n\n[^tgt]: MKbx *MKcx*\n", {}),
+    ("MKax\n\n:field MKbx: value MKcx\n:other: MKdx\n", {"myst_enable_extensions": ["fieldlist"]}),
+    ("- [ ] MKax task\n- [x] MKbx done\n", {"myst_enable_extensions": ["tasklist"]}),
+    ("```{note}\nMKax *MKbx* [MKcx](https://e.x)\n```\n\n:::{tip}\nMKdx\n:::\n", {"myst_enable_extensions": ["colon_fence"]}),
+    ("MKax {sub}`MKbx` and {emphasis}`MKcx` {literal}`MKdx`\n", {}),
+]
+
+
 def gdefs(grammar):
     return {"GrammarV": "[" + ", ".join(f"{k} |-> " + "{" + ", ".join(f'"{x}"' for x in sorted(v)) + "}" for k, v in grammar.items()) + "]"}
 
@@ -260,7 +270,8 @@ def gen_doc(rnd, depth=0):
             elif r < 0.65:
                 out.append("**" + inl(d + 1) + "**")
             elif r < 0.75:
-                out.append("[" + inl(d + 1) + "](https://e.x/" + w.replace(" ", "") + ")")
+                dest = rnd.choice(["https://e.x/" + w.replace(" ", ""), "https://e.x/" + w.replace(" ", ""), "Docs/README.md", "LICENSE", "../Up/File.TXT"])
+                out.append("[" + inl(d + 1) + "](" + dest + ")")
             elif r < 0.82:
                 out.append("`" + w + "`")
             elif r < 0.87:
@@ -554,6 +565,31 @@ def highlight_leg(ctx):
                 ctx.violation(f"code block text not verbatim with highlighting on (language {lang!r}): expected {want!r}, observed {got}",
                               {"leg": "R-highlight", "markdown": text}, finding=fid)
     ctx.leg("R-highlight", cases=n)
+    # LeavesFaithful on constructs outside the token vocabulary of the model (footnotes, field lists, task lists,
+    # directives with inline markup): every marker word of the source is in the doctree exactly once
+    nm = 0
+    for text, ov in MARKER_DOCS:
+        for wrap in ("", "> ", "- "):
+            src = "\n".join(((wrap if wrap != "- " or i == 0 else "  ") + ln) if ln or not wrap else wrap.rstrip() for i, ln in enumerate(text.split("\n"))) if wrap else text
+            if wrap and text.startswith("#"):
+                continue          # (a heading must stay at document level to make a name)
+            nm += 1
+            ctx.count(("markers", src))
+            case = {"leg": "R-markers", "markdown": src, "overrides": ov}
+            try:
+                doc, _ = R.parse_docutils(src, ov, transforms=True)
+            except Exception as e:  # noqa: BLE001
+                ctx.violation(f"rendering raised {type(e).__name__}: {e}", case)
+                continue
+            from docutils import nodes as _n
+            body = doc.deepcopy()
+            for sm in list(body.findall(_n.system_message)):
+                sm.parent.remove(sm)
+            flat = body.astext()
+            bad = {m: flat.count(m) for m in set(re.findall(r"MK\w+x", src)) if flat.count(m) != 1}
+            if bad:
+                ctx.violation(f"text leaves of the source occur {bad} times in the doctree (each exactly once expected)", case)
+    ctx.leg("R-markers", documents=nm)
 
 
 def run(ctx):
